@@ -9,5 +9,6 @@ import (
 func TestWorld(t *testing.T) {
 	simkit.Main(t, "BL", map[string]simkit.PropertyFn{
 		"C28": runC28,
+		"C35": runC35,
 	})
 }
